@@ -1,11 +1,11 @@
 #!/bin/bash
-# usage: tools/benign_store.sh <PROP> <TAG> <K> "<what>" "<result>"
-P=$1; TAG=$2; K=$3; WHAT=$4; RES=$5
-D=/verif/seeded/harmless/$P-$K; mkdir -p $D
+# usage: tools/benign_store.sh <PROP> <TAG> <K> "<what>" "<result>" [<stored-number, default K>]
+P=$1; TAG=$2; K=$3; WHAT=$4; RES=$5; N=${6:-$K}
+D=/verif/seeded/harmless/$P-$N; mkdir -p $D
 cp /tmp/seed-out/$P-$TAG/patch$K.diff $D/patch.diff
 cp /tmp/seed-out/$P-$TAG/demo$K.py $D/demo.py
 cp /tmp/seed-out/$P-$TAG/notes$K.md $D/notes.md 2>/dev/null
-python3 - "$P" "$K" "$WHAT" "$RES" <<'PY'
+python3 - "$P" "$N" "$WHAT" "$RES" <<'PY'
 import json,sys
 P,K,WHAT,RES=sys.argv[1:5]
 json.dump({"property":P,"id":f"{P}-harmless-{K}","kind":"harmless change: the property still holds","what":WHAT,
